@@ -306,19 +306,21 @@ Proof. apply text_eqb_eq. Qed.
 Lemma attr_eqb_eq a b : attr_eqb a b = true -> a = b.
 Proof.
   destruct a, b. unfold attr_eqb; cbn. intros H.
-  repeat (apply andb_true_iff in H as [H ?]).
-  apply text_eqb_true in H, H2, H1. apply N.eqb_eq in H0.
-  apply (opt_eqb_eq N.eqb) in H3; [|intros ? ?; apply N.eqb_eq]. subst. reflexivity.
+  apply andb_true_iff in H as [H Hm]. apply andb_true_iff in H as [H Hq]. apply andb_true_iff in H as [H Hv].
+  apply andb_true_iff in H as [Hn Ho].
+  apply text_eqb_true in Hn, Ho, Hv. apply N.eqb_eq in Hq.
+  apply (opt_eqb_eq N.eqb) in Hm; [|intros ? ?; apply N.eqb_eq]. subst. reflexivity.
 Qed.
 
 Lemma base_eqb_eq a b : base_eqb a b = true -> a = b.
 Proof.
   destruct a, b. unfold base_eqb; cbn. intros H.
-  repeat (apply andb_true_iff in H as [H ?]).
-  apply eqb_prop in H. apply (opt_eqb_eq text_eqb) in H3; [|exact text_eqb_true].
-  apply (leqb_eq' text_eqb text_eqb_true) in H2, H1.
-  apply (opt_eqb_eq text_eqb) in H0; [|exact text_eqb_true].
-  apply (leqb_eq' attr_eqb attr_eqb_eq) in H4. subst. reflexivity.
+  apply andb_true_iff in H as [H Ha]. apply andb_true_iff in H as [H Hi]. apply andb_true_iff in H as [H Hc].
+  apply andb_true_iff in H as [H Hp]. apply andb_true_iff in H as [Hb He].
+  apply eqb_prop in Hb. apply (opt_eqb_eq text_eqb) in He; [|exact text_eqb_true].
+  apply (leqb_eq' text_eqb text_eqb_true) in Hp, Hc.
+  apply (opt_eqb_eq text_eqb) in Hi; [|exact text_eqb_true].
+  apply (leqb_eq' attr_eqb attr_eqb_eq) in Ha. subst. reflexivity.
 Qed.
 
 Lemma relkind_eqb_eq a b : relkind_eqb a b = true -> a = b.
@@ -353,13 +355,15 @@ Qed.
 
 Lemma ext_comp_b_sound a b : ext_comp_b a b = true -> ext_comp a b.
 Proof.
-  unfold ext_comp_b, ext_comp, ext_base. intros H.
-  repeat (apply andb_true_iff in H as [H ?]).
+  unfold ext_comp_b, ext_comp, ext_base. cbv zeta. intros H.
+  apply andb_true_iff in H as [H Hf]. apply andb_true_iff in H as [H Hps]. apply andb_true_iff in H as [H Ha].
+  apply andb_true_iff in H as [H Hi]. apply andb_true_iff in H as [H Hc]. apply andb_true_iff in H as [H Hp].
+  apply andb_true_iff in H as [Hb He].
   repeat split.
-  - destruct (b_elem (c_base a)); [|exact I]. apply (opt_eqb_eq text_eqb) in H5; [exact H5|exact text_eqb_true].
+  - destruct (b_elem (c_base a)); [|exact I]. apply (opt_eqb_eq text_eqb) in He; [exact He|exact text_eqb_true].
   - apply (inclb_incl text_eqb); [exact text_eqb_true|assumption].
   - apply (inclb_incl text_eqb); [exact text_eqb_true|assumption].
-  - destruct (b_id (c_base a)); [|exact I]. apply (opt_eqb_eq text_eqb) in H2; [exact H2|exact text_eqb_true].
+  - destruct (b_id (c_base a)); [|exact I]. apply (opt_eqb_eq text_eqb) in Hi; [exact Hi|exact text_eqb_true].
   - apply (inclb_incl attr_eqb); [exact attr_eqb_eq|assumption].
   - apply (inclb_incl pseudo_eqb); [apply eqb_eq_all|assumption].
   - apply (opt_eqb_eq pseudo_eqb); [apply eqb_eq_all|assumption].
@@ -383,4 +387,199 @@ Lemma clause_expect_true_model l c' :
 Proof.
   intros H. apply existsb_exists in H as [c [Hc He]]. apply (sup_sels_extends l c c' Hc).
   apply extends_b_sound; exact He.
+Qed.
+
+(* ---------- transitivity, partial: compound selectors without selector-argument pseudos,
+   and the lift from complex selectors to selector lists ---------- *)
+Definition simple_pseudo (p : pseudo) : bool := match p_arg p with ArgSel _ => false | _ => true end.
+Definition simple_comp (c : compound) : bool := forallb simple_pseudo (c_ps c).
+
+Lemma match_name_trans a b c : match_name a b = true -> match_name b c = true -> match_name a c = true.
+Proof.
+  unfold match_name. intros H1 H2. apply orb_true_iff in H1 as [H1|H1]; [rewrite H1; reflexivity|].
+  apply text_eqb_eq in H1. subst b. exact H2.
+Qed.
+
+Lemma elem_sup_trans a b c : elem_sup a b = true -> elem_sup b c = true -> elem_sup a c = true.
+Proof.
+  unfold elem_sup. destruct (split_ns a) as [an aa], (split_ns b) as [bn bb], (split_ns c) as [cn cc].
+  intros H1 H2. apply andb_true_iff in H1 as [H1 H1']. apply andb_true_iff in H2 as [H2 H2'].
+  rewrite (match_name_trans _ _ _ H1 H2), (match_name_trans _ _ _ H1' H2'). reflexivity.
+Qed.
+
+Lemma all_any_trans {A} (f : A -> A -> bool) l1 l2 l3 :
+  (forall x y z, In x l1 -> In y l2 -> In z l3 -> f x y = true -> f y z = true -> f x z = true) ->
+  all_any f l1 l2 = true -> all_any f l2 l3 = true -> all_any f l1 l3 = true.
+Proof.
+  unfold all_any. intros Ht H1 H2. apply forallb_forall. intros x Hx.
+  rewrite forallb_forall in H1, H2. specialize (H1 x Hx). apply existsb_exists in H1 as [y [Hy Hxy]].
+  specialize (H2 y Hy). apply existsb_exists in H2 as [z [Hz Hyz]].
+  apply existsb_exists. exists z. split; [exact Hz|]. exact (Ht x y z Hx Hy Hz Hxy Hyz).
+Qed.
+
+Lemma text_eqb_trans x y z : text_eqb x y = true -> text_eqb y z = true -> text_eqb x z = true.
+Proof. intros H1 H2. apply text_eqb_eq in H1, H2. subst. apply text_eqb_refl. Qed.
+
+Lemma opt_N_eqb_trans (x y z : option N) :
+  opt_eqb N.eqb x y = true -> opt_eqb N.eqb y z = true -> opt_eqb N.eqb x z = true.
+Proof.
+  destruct x, y, z; cbn; try discriminate; auto. intros H1 H2. apply N.eqb_eq in H1, H2. subst. apply N.eqb_refl.
+Qed.
+
+Lemma attr_sup_trans a b c : attr_sup a b = true -> attr_sup b c = true -> attr_sup a c = true.
+Proof.
+  unfold attr_sup. intros H1 H2.
+  apply andb_true_iff in H1 as [H1 M1]. apply andb_true_iff in H1 as [H1 V1]. apply andb_true_iff in H1 as [N1 O1].
+  apply andb_true_iff in H2 as [H2 M2]. apply andb_true_iff in H2 as [H2 V2]. apply andb_true_iff in H2 as [N2 O2].
+  rewrite (text_eqb_trans _ _ _ N1 N2), (text_eqb_trans _ _ _ O1 O2), (text_eqb_trans _ _ _ V1 V2),
+          (opt_N_eqb_trans _ _ _ M1 M2). reflexivity.
+Qed.
+
+(* a name that is a superselector of a universal name is universal *)
+Lemma split_go_some e s acc x r :
+  (fix go (s acc : text) : option text * text :=
+     match s with
+     | [] => (None, e)
+     | c :: r => if N.eqb c 124 then (Some (rev acc), r) else go r (c :: acc)
+     end) s acc = (Some x, r) -> rev acc ++ s = x ++ 124%N :: r.
+Proof.
+  revert acc. induction s as [|c s IH]; intros acc H; [discriminate|].
+  destruct (N.eqb c 124) eqn:E.
+  - inversion H; subst. apply N.eqb_eq in E. subst. reflexivity.
+  - apply IH in H. cbn [rev] in H. rewrite <- app_assoc in H. exact H.
+Qed.
+
+Lemma split_go_none e s acc r :
+  (fix go (s acc : text) : option text * text :=
+     match s with
+     | [] => (None, e)
+     | c :: r => if N.eqb c 124 then (Some (rev acc), r) else go r (c :: acc)
+     end) s acc = (None, r) -> r = e.
+Proof.
+  revert acc. induction s as [|c s IH]; intros acc H; [inversion H; reflexivity|].
+  destruct (N.eqb c 124); [discriminate|]. exact (IH _ H).
+Qed.
+
+Lemma sup_of_any_is_any e s : elem_is_any s = true -> elem_sup e s = true -> elem_is_any e = true.
+Proof.
+  intros Hs H. unfold elem_sup in H. destruct (split_ns e) as [ens en] eqn:Ee.
+  assert (Hparts : match_name (match ens with Some x => x | None => str "*" end) (str "*") = true
+                   /\ match_name en (str "*") = true).
+  { unfold elem_is_any in Hs. apply orb_true_iff in Hs as [Hs|Hs]; apply text_eqb_eq in Hs; subst s;
+      cbn in H; apply andb_true_iff in H as [H1 H2]; split; assumption. }
+  destruct Hparts as [H1 H2].
+  assert (En : en = str "*").
+  { unfold match_name in H2. apply orb_true_iff in H2 as [H2|H2]; apply text_eqb_eq in H2; exact H2. }
+  unfold split_ns in Ee. destruct ens as [x|].
+  - apply split_go_some in Ee. cbn [rev app] in Ee.
+    assert (Ex : x = str "*").
+    { unfold match_name in H1. apply orb_true_iff in H1 as [H1|H1]; apply text_eqb_eq in H1; exact H1. }
+    subst x en. rewrite Ee. reflexivity.
+  - apply split_go_none in Ee. subst en. rewrite <- Ee. reflexivity.
+Qed.
+
+Lemma base_sup_trans a b c : base_sup a b = true -> base_sup b c = true -> base_sup a c = true.
+Proof.
+  unfold base_sup. intros H1 H2.
+  apply andb_true_iff in H1 as [H1 A1]. apply andb_true_iff in H1 as [H1 I1].
+  apply andb_true_iff in H1 as [H1 C1]. apply andb_true_iff in H1 as [E1 P1].
+  apply andb_true_iff in H2 as [H2 A2]. apply andb_true_iff in H2 as [H2 I2].
+  apply andb_true_iff in H2 as [H2 C2]. apply andb_true_iff in H2 as [E2 P2].
+  rewrite (all_any_trans text_eqb _ _ _ (fun x y z _ _ _ => text_eqb_trans x y z) P1 P2),
+          (all_any_trans text_eqb _ _ _ (fun x y z _ _ _ => text_eqb_trans x y z) C1 C2),
+          (all_any_trans attr_sup _ _ _ (fun x y z _ _ _ => attr_sup_trans x y z) A1 A2).
+  assert (Eid : match b_id a with None => true | Some i => opt_eqb text_eqb (b_id c) (Some i) end = true).
+  { destruct (b_id a) as [i|]; [|reflexivity]. destruct (b_id b) as [j|]; [|discriminate].
+    cbn in I1. apply text_eqb_eq in I1. subst j. exact I2. }
+  rewrite Eid.
+  assert (Eel : match b_elem a with
+                | None => true
+                | Some e => elem_is_any e || match b_elem c with Some s => elem_sup e s | None => false end
+                end = true).
+  { destruct (b_elem a) as [e|]; [|reflexivity]. destruct (elem_is_any e) eqn:Ea; [reflexivity|]. cbn [orb] in *.
+    destruct (b_elem b) as [s|]; [|discriminate].
+    destruct (elem_is_any s) eqn:Es.
+    - rewrite (sup_of_any_is_any e s Es E1) in Ea. discriminate.
+    - cbn [orb] in E2. destruct (b_elem c) as [t|]; [|discriminate]. exact (elem_sup_trans _ _ _ E1 E2). }
+  rewrite Eel. reflexivity.
+Qed.
+
+Lemma sup_pseudo_simple p q :
+  simple_pseudo p = true -> sup_pseudo p q = true ->
+  p_is_element p = p_is_element q /\ p_name p = p_name q /\ p_arg p = p_arg q.
+Proof.
+  destruct p as [n e a], q as [n' e' a']. unfold simple_pseudo. cbn [p_arg p_name sup_pseudo p_is_element p_el].
+  intros Hs H.
+  destruct (Bool.eqb (e || is_pseudo_element_name n) (e' || is_pseudo_element_name n')) eqn:E1; [|discriminate].
+  destruct (text_eqb n n') eqn:E2; [|discriminate]. cbn [negb orb] in H.
+  apply eqb_prop in E1. apply text_eqb_eq in E2. repeat split; try assumption.
+  destruct a as [l|t|]; [discriminate| |]; destruct a' as [l'|t'|];
+    destruct (name_in n [str "not"]); destruct (name_in n [str "current"]); cbn in H; try discriminate;
+    try reflexivity; apply text_eqb_eq in H; subst; reflexivity.
+Qed.
+
+Lemma sup_pseudo_congr p q r :
+  p_is_element p = p_is_element q -> p_name p = p_name q -> p_arg p = p_arg q ->
+  sup_pseudo p r = sup_pseudo q r.
+Proof.
+  destruct p as [n e a], q as [n' e' a']. cbn [p_is_element p_name p_arg p_el]. intros H1 H2 H3. subst.
+  cbn [sup_pseudo]. rewrite H1. reflexivity.
+Qed.
+
+Lemma sup_pseudo_trans_simple p q r :
+  simple_pseudo p = true -> sup_pseudo p q = true -> sup_pseudo q r = true -> sup_pseudo p r = true.
+Proof.
+  intros Hs H1 H2. destruct (sup_pseudo_simple p q Hs H1) as [A [B C]].
+  rewrite (sup_pseudo_congr p q r A B C). exact H2.
+Qed.
+
+Lemma sup_comp_trans_simple a b c :
+  simple_comp a = true -> sup_comp a b = true -> sup_comp b c = true -> sup_comp a c = true.
+Proof.
+  destruct a as [ba psa], b as [bb psb]. unfold simple_comp. cbn [c_ps sup_comp c_base]. intros Hs H1 H2.
+  apply andb_true_iff in H1 as [H1 F1]. apply andb_true_iff in H1 as [B1 P1].
+  apply andb_true_iff in H2 as [H2 F2]. apply andb_true_iff in H2 as [B2 P2].
+  rewrite (base_sup_trans _ _ _ B1 B2). cbn [andb].
+  rewrite forallb_forall in Hs.
+  assert (E : forallb (fun p => existsb (sup_pseudo p) (c_ps c)) psa = true).
+  { apply forallb_forall. intros p Hp. rewrite forallb_forall in P1, P2.
+    specialize (P1 p Hp). apply existsb_exists in P1 as [q [Hq Hpq]].
+    specialize (P2 q Hq). apply existsb_exists in P2 as [r [Hr Hqr]].
+    apply existsb_exists. exists r. split; [exact Hr|].
+    exact (sup_pseudo_trans_simple p q r (Hs p Hp) Hpq Hqr). }
+  rewrite E. cbn [andb].
+  rewrite first_match_find in F1, F2 |- *.
+  destruct (find p_is_element psa) as [aa|] eqn:Ea.
+  - rewrite first_match_find in F1 |- *. destruct (find p_is_element psb) as [ab|] eqn:Eb; [|discriminate].
+    rewrite first_match_find in F2. destruct (find p_is_element (c_ps c)) as [ac|]; [|discriminate].
+    apply (sup_pseudo_trans_simple aa ab ac); [apply Hs; apply (find_some _ _ Ea)|exact F1|exact F2].
+  - rewrite first_match_find in F1 |- *. destruct (find p_is_element psb) as [ab|] eqn:Eb; [discriminate|].
+    rewrite first_match_find in F2. exact F2.
+Qed.
+
+(* lists: transitivity of the members gives transitivity of the lists *)
+Lemma sup_sels_trans_lift la lb lc :
+  (forall x y z, In x la -> In y lb -> In z lc ->
+                 sup_sel x y = true -> sup_sel y z = true -> sup_sel x z = true) ->
+  sup_sels la lb = true -> sup_sels lb lc = true -> sup_sels la lc = true.
+Proof.
+  unfold sup_sels. intros Ht H1 H2. apply forallb_forall. intros z Hz.
+  rewrite forallb_forall in H1, H2. specialize (H2 z Hz). apply existsb_exists in H2 as [y [Hy Hyz]].
+  specialize (H1 y Hy). apply existsb_exists in H1 as [x [Hx Hxy]].
+  apply existsb_exists. exists x. split; [exact Hx|]. exact (Ht x y z Hx Hy Hz Hxy Hyz).
+Qed.
+
+(* compound-only selectors (no combinator) without selector pseudos: full transitivity on lists *)
+Definition flat_simple (s : sel) : bool := is_none (s_rel s) && simple_comp (s_comp s).
+
+Lemma sup_sels_trans_flat la lb lc :
+  forallb flat_simple la = true -> forallb flat_simple lb = true ->
+  sup_sels la lb = true -> sup_sels lb lc = true -> sup_sels la lc = true.
+Proof.
+  intros Fa Fb. apply sup_sels_trans_lift. intros x y z Hx Hy _ H1 H2.
+  rewrite forallb_forall in Fa, Fb. specialize (Fa x Hx). specialize (Fb y Hy).
+  unfold flat_simple in Fa, Fb. apply andb_true_iff in Fa as [Ra Sa]. apply andb_true_iff in Fb as [Rb Sb].
+  destruct x as [[?|] ca]; [discriminate|]. destruct y as [[?|] cb]; [discriminate|].
+  cbn [sup_sel s_comp s_rel] in *. rewrite andb_true_r in *.
+  exact (sup_comp_trans_simple ca cb (s_comp z) Sa H1 H2).
 Qed.
